@@ -3,7 +3,7 @@ from vf.checks import progbase
 
 
 def main():
-    R, code = progbase.run("C01", quick=(16, 250), thorough=(32, 3000), extra={"small_primes": True},
+    R, code = progbase.run("C01", quick=(16, 250), thorough=(32, 6000), extra={"small_primes": True},
                            require=("constraints_evaluated",))
     return code
 
